@@ -126,6 +126,13 @@ func (k *baseKey) Certificate() []byte                       { return nil }
 func (k *baseKey) GetID() []byte                             { return []byte{byte(k.id)} }
 func (k *baseKey) ImportCertificate(*x509.Certificate) error { return nil }
 
+// transientErr: what a token that is briefly unreachable answers
+type transientErr struct{}
+
+func (transientErr) Error() string   { return "connect: connection refused" }
+func (transientErr) Temporary() bool { return true }
+func (transientErr) Timeout() bool   { return false }
+
 type cstep struct {
 	Op     string `json:"op"`
 	Name   string `json:"name"`
@@ -157,6 +164,14 @@ func replayCache(r *res.Result, b *cbeh) {
 			base.mu.Unlock()
 		case "Expire":
 			time.Sleep(cacheExpiry + 30*time.Millisecond)
+		case "Down":
+			base.mu.Lock()
+			base.getErr = transientErr{}
+			base.mu.Unlock()
+		case "Up":
+			base.mu.Lock()
+			base.getErr = nil
+			base.mu.Unlock()
 		case "GetKey":
 			ctx := context.Background()
 			if s.Want != 0 {
